@@ -153,9 +153,12 @@ def malform(rng, g):
         g["nprops"]["bad"] = {"values": {"vlen": els}, "missing": None}
     elif k == "vlen_mixed_dtype":
         g["nprops"] = dict(g["nprops"] or {})
-        els = [gg.rand_array(rng, "int16", [2]) for _ in range(n)]
+        # int16 beside int32; or float16 beside float32 (in either order): the dtype check runs on the elements as given, BEFORE the
+        # float16 upcast, so the pair is rejected although both would be float32 after it
+        a, b = rng.choice([("int16", "int32"), ("float16", "float32"), ("float32", "float16")])
+        els = [gg.rand_array(rng, a, [2]) for _ in range(n)]
         if len(els) >= 2:
-            els[-1] = gg.rand_array(rng, "int32", [2])
+            els[-1] = gg.rand_array(rng, b, [2])
         g["nprops"]["bad"] = {"values": {"vlen": els}, "missing": None}
     elif k == "stale_md":
         g["md"] = dict(g["md"])
